@@ -3,6 +3,7 @@
 
    Go state mirrored:   LspServer.fileErrorMap        ("saved": what the last full analysis says, per file, never an empty list)
                         LspServer.fileChangeErrorMap  ("live": syntax errors of an unsaved buffer)
+                        LspServer.fileChangeCleanMap  ("clean": files whose unsaved buffer has no syntax error)
    Go output mirrored:  the stream of textDocument/publishDiagnostics notifications (file, list).
    An error is projected to (type, line, tag); tag stands for the rest of CheckError.ToString() (columns, message). *)
 From Coq Require Import List NArith Bool.
